@@ -237,6 +237,16 @@ def scenarios(rng: random.Random, tier: str):
     out.append(idle_cfg + " | start ok,ok | rx 0 " + nodegen.cea(2001, "peer1.x", n(), n()) + " | adv 4 | rx 0 " +
                nodegen.dpr(n(), n()) + " | req 0 " + nodegen.ccr(0, 0, "node.local") + " 1 | rx 0 " + nodegen.dwa(n(), n()) +
                " | req 0 " + nodegen.ccr(0, 0, "node.local") + " 1")
+    # three peers serve the application; the least used one sends a DPR: the next requests go to the other two
+    cfg3 = ("NODE host=node.local;realm=realm.local;cea=4;cer=4;idle=30;dwa=4;"
+            "peer:peer1.x,realm.local,0,0,5,1,0,-,-,-,-;peer:peer2.x,realm.local,0,0,5,1,0,-,-,-,-;"
+            "peer:peer3.x,realm.local,0,0,5,1,0,-,-,-,-;app:4,1,0,b,0,0+1+2,-")
+    pre3 = cfg3 + " | start | " + " | ".join(f"acc | rx {k} " + nodegen.cer(f"peer{k + 1}.x", "4", n(), n()) for k in range(3))
+    rq = "req 0 " + nodegen.ccr(0, 0, "node.local") + " 1"
+    for leaver in (2, 1, 0):
+        # (the default selection prefers the peer that has sent the fewest requests: the others send some watchdogs first)
+        chat = " | ".join(f"rx {k} " + nodegen.dwr(n(), n(), f"peer{k + 1}.x") for k in (0, 1, 2) if k != leaver for _ in range(3))
+        out.append(pre3 + f" | {chat} | {rq} | rx {leaver} " + nodegen.dpr(n(), n(), f"peer{leaver + 1}.x") + f" | {rq} | {rq} | {rq}")
     # DPR then request must not be routed over that connection
     out.append(cfg_line(1, 0, 5) + " | start ok,ok | rx 0 " + nodegen.cea(2001, "peer1.x", n(), n()) + " | rx 0 " + nodegen.dpr(n(), n()) +
                " | req 0 " + nodegen.ccr(0, 0, "node.local") + " 1 | eof 0 | adv 5 | adv 5")
